@@ -449,8 +449,11 @@ class Recfile(object):
 
         if self.is_ascii:
             # for ascii, make sure the data are in native format.  This greatly
-            # simplifies the C code
-            to_native_inplace(dataview)
+            # simplifies the C code.  Work on a copy when a swap is needed so
+            # the caller's array is left alone
+            if not is_native(dataview):
+                dataview = dataview.copy()
+                to_native_inplace(dataview)
 
         self.robj.Write(dataview)
 
@@ -966,6 +969,22 @@ def remove_dtype_byteorder(dtype):
         newdt.append(dt)
 
     return newdt
+
+
+def is_native(array):
+    """
+    True if no field of the array needs swapping to be in native byte order
+    """
+    if array.dtype.names is None:
+        dtypes = [array.dtype]
+    else:
+        dtypes = [array.dtype[name] for name in array.dtype.names]
+
+    swapped = ">" if numpy.little_endian else "<"
+    for dt in dtypes:
+        if dt.base.byteorder == swapped:
+            return False
+    return True
 
 
 def to_native_inplace(array):
